@@ -336,7 +336,8 @@ class PermutationVariable(Variable):
         return lb.tolist(), ub.tolist()
 
     def correct(self, value: tuple | list | np.ndarray) -> list[int]:
-        return np.argsort(value).tolist()
+        # the rank vector: any real vector becomes a permutation, a permutation stays as it is
+        return np.argsort(np.argsort(value, kind="stable"), kind="stable").tolist()
 
     def decode(self, value: tuple | list | np.ndarray) -> Any:
         value = self.correct(value)
